@@ -54,6 +54,13 @@ DispatchOutcomeOK(list, fl, ncalls, called, args, seen, ret) ==
   /\ called \in {list[i] : i \in 1 .. Len(list)}
   /\ seen = args
   /\ ret = F(called, args)
+\* the default list (supported_architectures) is ordered best-first with best_arch at its head: it is a sub-sequence of the
+\* specification's best-first order of the x86 architectures (ids = positions in Cpuid.ArchNames; the same order as Geometry.SpecArchs)
+BestFirstIds == <<23, 21, 20, 19, 18, 22, 16, 17, 15, 14, 13, 11, 12, 10, 9, 8, 7, 6, 5, 4, 3, 2, 1>>
+RECURSIVE IsSubSeqFrom(_, _, _, _)
+IsSubSeqFrom(lst, i, ref, j) == IF i > Len(lst) THEN TRUE ELSE IF j > Len(ref) THEN FALSE
+                                ELSE IF lst[i] = ref[j] THEN IsSubSeqFrom(lst, i + 1, ref, j + 1) ELSE IsSubSeqFrom(lst, i, ref, j + 1)
+DefaultListOK(lst, best) == Len(lst) >= 1 /\ IsSubSeqFrom(lst, 1, BestFirstIds, 1) /\ best = lst[1]
 Termination == <>(walk.called # <<>> \/ walk.pos = 0)
 Spec == Init /\ [][Next]_dvars /\ WF_dvars(DispatchProbe) /\ WF_dvars(DispatchCall)
 =============================================================================
